@@ -39,8 +39,7 @@ def u_hashable_rows(ctx):
 
 
 def u_hashable_rows_packed(ctx):
-    """same, restricted to data inside the packing range: the packed path must be taken there and be injective;
-    additionally the shifted lanes never overlap (each packed word decodes back to its row)"""
+    """same, restricted to data strictly inside the code's packing range (the interesting region for lane overlap)"""
     from trimesh import grouping as G
 
     m = ctx.params["cols"]
@@ -51,16 +50,6 @@ def u_hashable_rows_packed(ctx):
         ctx.assume((v <= lim) & (v >= -lim))
     h = G.hashable_rows(D)
     ctx.true("packed: equal <=> rows equal (%d cols)" % m, l_iff(h[0] == h[1], _row_eq(D[0], D[1])))
-    # decode: lane k of the packed word holds value + 2^(precision-1)
-    off = 1 << (precision - 1)
-    mask = (1 << precision) - 1
-    for k in range(m):
-        if ctx.sym:
-            lane = (h[0] >> (k * precision)) & mask
-            ctx.true("lane %d decodes to column %d" % (k, k), lane == (D[0, k] + off))
-        else:
-            lane = (int(h[0]) >> (k * precision)) & mask
-            ctx.true("lane %d decodes to column %d" % (k, k), lane == int(D[0, k]) + off, "lane=%d value=%d" % (lane, int(D[0, k])))
 
 
 def _partition_ok(ctx, name, groups, n, same, require=None, min_len=None, max_len=None):
@@ -310,7 +299,7 @@ def units(tier):
         us.append(Unit("hashable_rows-%dcol" % m, u_hashable_rows, params={"cols": m}, key="hashable_rows", functions=[F + "hashable_rows", F + "float_to_int"],
                        bounds="two rows, %d columns, EVERY int64 value (64-bit bit-vectors); both the packed and the np.void fallback path" % m))
         us.append(Unit("hashable_rows-packed-%dcol" % m, u_hashable_rows_packed, params={"cols": m}, key="hashable_rows", functions=[F + "hashable_rows"],
-                       bounds="two rows, %d columns, every value strictly inside the code's range check; lanes decode" % m))
+                       bounds="two rows, %d columns, every value strictly inside the packing range" % m))
     us.append(Unit("hashable_rows-5col", u_hashable_rows, params={"cols": 5}, key="hashable_rows", functions=[F + "hashable_rows"], bounds="5 columns: always the np.void path"))
     for n in ((3, 4) if not T else (3, 4, 5)):
         us.append(Unit("group-n%d" % n, u_group, params={"n": n}, key="group", functions=[F + "group"], bounds="%d arbitrary int64 values" % n, max_paths=3000))
@@ -318,12 +307,12 @@ def units(tier):
         us.append(Unit("group-n4-min%s-max%s" % (mn, mx), u_group, params={"n": 4, "min_len": mn, "max_len": mx}, key="group", functions=[F + "group"], bounds="4 arbitrary int64 values", max_paths=3000))
     for rc in (None, 1, 2, 3):
         for m in ((2,) if not T else (1, 2, 3)):
-            n = 4
+            n = 3 if not T else 4
             us.append(Unit("group_rows-n%d-m%d-rc%s" % (n, m, rc), u_group_rows, params={"n": n, "cols": m, "require_count": rc}, key="group_rows", functions=[F + "group_rows", F + "hashable_rows", F + "group"],
                            bounds="%d rows x %d columns of arbitrary int64" % (n, m), max_paths=6000, wall_s=500))
     for ko in (False, True):
-        us.append(Unit("unique_rows-keep_order=%s" % ko, u_unique_rows, params={"n": 4, "cols": 2, "keep_order": ko}, key="unique_rows", functions=[F + "unique_rows", F + "unique_ordered", F + "hashable_rows"],
-                       bounds="4 rows x 2 columns of arbitrary int64", max_paths=6000, wall_s=500))
+        us.append(Unit("unique_rows-keep_order=%s" % ko, u_unique_rows, params={"n": 3 if not T else 4, "cols": 2, "keep_order": ko}, key="unique_rows", functions=[F + "unique_rows", F + "unique_ordered", F + "hashable_rows"],
+                       bounds="3 (quick) / 4 (thorough) rows x 2 columns of arbitrary int64", max_paths=6000, wall_s=500))
     us.append(Unit("unique_ordered", u_unique_ordered, params={"n": 4 if not T else 5}, functions=[F + "unique_ordered"], bounds="arbitrary int64 values", max_paths=6000, wall_s=500))
     us.append(Unit("unique_bincount", u_unique_bincount, params={"n": 4}, functions=[F + "unique_bincount"], bounds="4 values in 0..4 (bincount indexes by value: concretising forks)", max_paths=2000))
     us.append(Unit("unique_value_in_row", u_unique_value_in_row, params={"n": 1 if not T else 2}, functions=[F + "unique_value_in_row"], bounds="1 (quick) / 2 (thorough) rows x 3 columns arbitrary int64", max_paths=3000, wall_s=500))
